@@ -119,7 +119,7 @@ PROPS['C10'] = dict(
     assumptions=['callbacks act on the manager through its API only'],
 )
 PROPS['C12'] = dict(
-    modules=['SimProc.Props.C12'], prop_files=['SimProc/Props/C12.lean'],
+    modules=['SimProc.Props.C12', 'SimProc.Props.C12W'], prop_files=['SimProc/Props/C12.lean', 'SimProc/Props/C12W.lean'],
     families=[('maint', 300, 6000)],
     tags=tags(*BASE, 'm', 'rec'),
     monitors=M.MONITORS['C12'],
@@ -134,7 +134,7 @@ PROPS['C12'] = dict(
              'correspondence and monitor, not stated as a theorem'],
 )
 PROPS['C18'] = dict(
-    modules=['SimProc.Props.C18'], prop_files=['SimProc/Props/C18.lean'],
+    modules=['SimProc.Props.C18', 'SimProc.Props.C18W'], prop_files=['SimProc/Props/C18.lean', 'SimProc/Props/C18W.lean'],
     families=[('sched', 300, 6000)],
     tags=tags(*BASE, 's', 'rec'),
     monitors=M.MONITORS['C18'],
@@ -146,7 +146,7 @@ PROPS['C18'] = dict(
     assumptions=['actions do not (un)register objects on the scheduler they run under', 'exact time arithmetic'],
 )
 PROPS['C19'] = dict(
-    modules=['SimProc.Props.C19'], prop_files=['SimProc/Props/C19.lean'],
+    modules=['SimProc.Props.C19', 'SimProc.Props.C19W', 'SimProc.Props.C18W'], prop_files=['SimProc/Props/C19.lean', 'SimProc/Props/C19W.lean', 'SimProc/Props/C18W.lean'],
     families=[('sensor', 300, 6000)], impl_only_families=[('sensordec', 150, 3000)],
     tags=tags(*BASE, 'n'),
     monitors=M.MONITORS['C19'],
@@ -263,7 +263,7 @@ PROPS['C17'] = floor_prop(
     families=[('floorb', 120, 2500), ('floor', 80, 1500), ('floorc', 40, 800), ('floors', 60, 1200)])
 PROPS['C17']['tags']['d'] = lambda l: _c.fields('part', 'out', 'inprog')(l) if ' batcher ' in l else None
 PROPS['C20'] = dict(
-    modules=['SimProc.Props.C20', 'SimProc.Props.Facts'], prop_files=['SimProc/Props/C20.lean'],
+    modules=['SimProc.Props.C20', 'SimProc.Props.Facts', 'SimProc.Props.C20W'], prop_files=['SimProc/Props/C20.lean', 'SimProc/Props/C20W.lean'],
     families=[('sys', 200, 4000), ('sysm', 300, 6000)], runner='SysRunner',
     impl_only_families=[('sysi', 100, 2000)],
     tags=tags('ev', 'now', 'res', 'ran', 'runbegin', 'rec', 'd', 'p', 's', 'n', 'm', 'sres', 'scount'),
@@ -279,7 +279,7 @@ PROPS['C20'] = dict(
 import c14 as _c14
 
 PROPS['C14'] = dict(
-    modules=['SimProc.Props.C14', 'SimProc.Props.C14Split'], prop_files=['SimProc/Props/C14.lean', 'SimProc/Props/C14Split.lean'],
+    modules=['SimProc.Props.C14', 'SimProc.Props.C14Split', 'SimProc.Props.C14W'], prop_files=['SimProc/Props/C14.lean', 'SimProc/Props/C14Split.lean', 'SimProc/Props/C14W.lean'],
     families=[('env', 200, 3000), ('floor', 60, 1000)],
     tags=tags(*BASE, 'rec', 'd', 'p'),
     monitors=[], nontrivial=env_nontrivial, stats=op_stats, divergence_is_witness=True,
